@@ -1,16 +1,22 @@
 (* C18 driver.  Requests:
      cfg <kind> <type> <deref> <filename> <recursive> <verify> <exclude>
-        kind   = file|dir|linkfile|linkdir|stdin|url|gitrepo
+        kind   = file|dir|linkfile|linkdir|stdin|url|gitrepo|missing|badurl|refusedurl
         type   = auto|content|directory|origin|snapshot
         verify = none|match|nonmatch ; the flags are 0|1
         -> ok inscope=0|1 literal=0|1 des=<obj>,<excluded> model=<outcome> spec=<outcome> strict=<outcome>
-              old1=<outcome> old2=<outcome> old3=<outcome> old4=<outcome>
-           (old1..old4 = the code before each of the four repairs: realpath str, rectype, autolink, recfollows)
+              old1=<outcome> old2=<outcome> old3=<outcome> old4=<outcome> old5=<outcome>
+           (old1..old5 = the code before each of the five repairs: realpath str, rectype, autolink, recfollows,
+            origin ValueError uncaught)
            outcome = print,<obj>,<excluded>,<shown>,<listing> | usage | exit0 | exit1 | crash,<class>
+     many <type> <deref> <filename> <recursive> <verify> <exclude> <kind,kind,...>   ("." = no argument)
+        -> ok inscope=0|1 model=<run> spec=<run>
+           run = <line>|<line>|...;<end>  ("." = no line), line = <obj>,<excluded>,<shown>,<listing>,
+           end = done | usage | exit0 | exit1 | crash,<class>
      count  -> ok <length all_cfgs> *)
 let kind_of = function
   | "file" -> AFile | "dir" -> ADir | "linkfile" -> ALinkFile | "linkdir" -> ALinkDir
-  | "stdin" -> AStdin | "url" -> AUrl | "gitrepo" -> AGitRepo | _ -> failwith "kind"
+  | "stdin" -> AStdin | "url" -> AUrl | "gitrepo" -> AGitRepo | "missing" -> AMissing | "badurl" -> ABadUrl | "refusedurl" -> ARefusedUrl
+  | _ -> failwith "kind"
 let type_of = function
   | "auto" -> TAuto | "content" -> TContent | "directory" -> TDirectory | "origin" -> TOrigin
   | "snapshot" -> TSnapshot | _ -> failwith "type"
@@ -20,14 +26,20 @@ let b x = if x then "1" else "0"
 let show_obj = function
   | OPathContent -> "pathcontent" | OLinkText -> "linktext" | OTargetFile -> "targetfile"
   | OEmptyContent -> "empty" | OStdin -> "stdin" | ODirAtPath -> "dirpath" | ODirAtLinkTarget -> "dirtarget"
-  | OOrigin -> "origin" | OSnapshot -> "snapshot"
+  | OOrigin -> "origin" | OSnapshot -> "snapshot" | ONothing -> "nothing" | ORefusedOrigin -> "refused"
 let show_crash = function
   | CrTypeError -> "TypeError" | CrNotADirectory -> "NotADirectoryError" | CrFileNotFound -> "FileNotFoundError"
-  | CrNotGitRepository -> "NotGitRepository"
+  | CrNotGitRepository -> "NotGitRepository" | CrValueError -> "ValueError"
 let show_outcome = function
   | Print (o, e, s, l) -> String.concat "," ["print"; show_obj o; b e; b s; b l]
   | Usage -> "usage" | Exit0 -> "exit0" | Exit1 -> "exit1"
   | Crash c -> "crash," ^ show_crash c
+let show_line (((o, e), s), l) = String.concat "," [show_obj o; b e; b s; b l]
+let show_end = function
+  | MDone -> "done" | MUsageEnd -> "usage" | MExit0 -> "exit0" | MExit1 -> "exit1"
+  | MCrashEnd c -> "crash," ^ show_crash c
+let show_run (MOut (ls, e)) =
+  (if ls = [] then "." else String.concat "|" (List.map show_line ls)) ^ ";" ^ show_end e
 let () = serve (function
   | ["cfg"; k; t; d; f; r; v; x] ->
       let c = { arg = kind_of k; ty = type_of t; deref = bool_of d; fname = bool_of f; recur = bool_of r;
@@ -39,6 +51,14 @@ let () = serve (function
         "model=" ^ show_outcome (identify_model c); "spec=" ^ show_outcome (spec c);
         "strict=" ^ show_outcome (spec_strict c);
         "old1=" ^ show_outcome (identify_old_realpath c); "old2=" ^ show_outcome (identify_old_rectype c);
-        "old3=" ^ show_outcome (identify_old_autolink c); "old4=" ^ show_outcome (identify_old_recfollows c) ]
+        "old3=" ^ show_outcome (identify_old_autolink c); "old4=" ^ show_outcome (identify_old_recfollows c);
+        "old5=" ^ show_outcome (identify_old_originuncaught c) ]
+  | ["many"; t; d; f; r; v; x; ks] ->
+      let c = { arg = AFile; ty = type_of t; deref = bool_of d; fname = bool_of f; recur = bool_of r;
+                ver = ver_of v; excl = bool_of x } in
+      let ks = if ks = "." then [] else List.map kind_of (String.split_on_char ',' ks) in
+      String.concat " " [
+        "ok"; "inscope=" ^ b (in_scope_many c ks);
+        "model=" ^ show_run (identify_many c ks); "spec=" ^ show_run (spec_many c ks) ]
   | ["count"] -> "ok " ^ string_of_int (List.length all_cfgs)
   | _ -> "err bad_request")
